@@ -73,6 +73,16 @@ class extract_visitor(NodeVisitor):
         self.flow = cur
         return result
 
+    def bind_target(self, flow, target, location, value):
+        # type: (Flow, ast.AST, t.Any, ast.AST) -> None
+        for name, _ in get_indexes_for_target(target, [], []):
+            if isinstance(name, Attribute):
+                self.top.add_attr_assign(flow.scope, name, value)
+            elif isinstance(name, UNSUPPORTED_ASSIGMENTS):
+                continue
+            else:
+                flow.add_name(AssignedName(name.id, location, np(name), value))
+
     def visit_Assign(self, node):
         # type: (ast.Assign) -> None
         eend = get_expr_end(node.value)
@@ -119,9 +129,8 @@ class extract_visitor(NodeVisitor):
         cur = self.flow
 
         body_start = self.make_flow('for', [cur])
-        for nn, _idx in get_indexes_for_target(node.target, [], []):
-            name = nn  # type: ast.Name # type: ignore[assignment]
-            body_start.add_name(AssignedName(name.id, np(node.body[0]), np(name), node.iter))
+        self.bind_target(body_start, node.target, np(node.body[0]), node.iter)
+        self.visit_in_flow(node.target, body_start)
         body = self.visit_in_flow(node.body, body_start)
         body_start.loop(body)
 
@@ -299,9 +308,9 @@ class extract_visitor(NodeVisitor):
             pp = p
             p = self.make_flow('comp', [p])
             for nn, _idx in get_indexes_for_target(g.target, [], []):
-                name = nn  # type: ast.Name # type: ignore[assignment]
-                name.flow = pp  # type: ignore[attr-defined]
-                p.add_name(AssignedName(name.id, np(node), np(name), g.iter))
+                nn.flow = pp  # type: ignore[union-attr]
+            self.bind_target(p, g.target, np(node), g.iter)
+            self.visit_in_flow(g.target, p)
 
             if g.ifs:
                 for inode in g.ifs:
@@ -332,9 +341,7 @@ class extract_visitor(NodeVisitor):
 
         for it in items:
             if it.optional_vars:
-                for nn, _idx in get_indexes_for_target(it.optional_vars, [], []):
-                    name = nn  # type: ast.Name # type: ignore[assignment]
-                    self.flow.add_name(AssignedName(name.id, get_expr_end(it.context_expr), np(name), node))
+                self.bind_target(self.flow, it.optional_vars, get_expr_end(it.context_expr), node)
 
         self.generic_visit(node)
 
